@@ -72,6 +72,9 @@ var Profiles = map[string]Profile{
 	"convcall": {Types: []string{"T1", "T2", "T3", "T4"}, Ifaces: []string{"I1", "I2"}, Names: []string{"", "", "a", "b"}, Subs: []string{"", "", "s"},
 		MaxIn: 2, MaxOut: 2, MaxTIn: 1, MaxInputs: 3, MaxConvs: 4, Forms: []string{"pos", "struct", "ptr", "built"}, FailProb: 0.1, OnceProb: 0.1,
 		MultiMax: -1, Modes: []string{"convcall"}, BadProb: 0.08},
+	"convgens": {Types: []string{"T1", "T2", "T3", "T4"}, Ifaces: []string{"I1"}, Names: []string{"", "", "a"}, Subs: []string{"", "", "s"},
+		MaxIn: 1, MaxOut: 2, MaxTIn: 1, MaxInputs: 3, MaxConvs: 3, Forms: []string{"pos", "struct", "ptr", "built"}, FailProb: 0.05, OnceProb: 0.1,
+		MultiMax: -1, Modes: []string{"convcall"}, GenProb: 0.9},
 	"conc": {Types: []string{"T1", "T2", "T3", "T4"}, Ifaces: []string{"I1"}, Names: []string{"", "", "a", "b"}, Subs: []string{"", "s", "t"},
 		MaxIn: 2, MaxOut: 2, MaxTIn: 3, MaxInputs: 3, MaxConvs: 4, Forms: []string{"pos", "struct", "ptr"}, FailProb: 0.1, OnceProb: 0.4,
 		MultiMax: -1, Modes: []string{"call"}, TargetOuts: 1, DefProb: 0.5},
@@ -147,8 +150,8 @@ func (p Profile) fn(r *rand.Rand, maxIn, maxOut int, target bool) FuncSpec {
 	if maxOut > 0 {
 		nout = r.Intn(maxOut + 1)
 	}
-	if !target && nout == 0 {
-		nout = 1
+	if !target && nout == 0 && r.Intn(8) != 0 {
+		nout = 1 // (now and then a converter without results stays: useless, legal, and listed by the error like any other)
 	}
 	for i := 0; i < nout; i++ {
 		f.Out = append(f.Out, p.label(r, !target && r.Intn(3) == 0))
@@ -174,6 +177,12 @@ func (p Profile) fn(r *rand.Rand, maxIn, maxOut int, target bool) FuncSpec {
 			f.FailAs = "unsat"
 		case 2:
 			f.FailAs = "wrapunsat"
+		case 3:
+			f.FailAs = "multi1"
+		}
+		if !target && len(f.Out) >= 2 && r.Intn(2) == 0 {
+			// a converter with several results may be executed once per result that is needed: let it fail the second time only
+			f.FailOn = 2
 		}
 	}
 	if !target && r.Float64() < p.OnceProb {
